@@ -365,7 +365,19 @@ func observeModule(c *Chain, ctx sdk.Context, m string) interface{} {
 		v["modbal"] = modBal(c, ctx, govtypes.ModuleName)
 		return v
 	case "cert":
-		return exportJ(c, ctx, "cert")
+		v := exportJ(c, ctx, "cert").(map[string]interface{})
+		// the alias index is a store of its own (not exported): observe it directly
+		aliases := []interface{}{}
+		store := ctx.KVStore(c.App.VerifStoreKey(certtypes.StoreKey))
+		it := sdk.KVStorePrefixIterator(store, certtypes.CertifierAliasesStoreKey())
+		for ; it.Valid(); it.Next() {
+			var cf certtypes.Certifier
+			c.App.VerifAppCodec().MustUnmarshalBinaryLengthPrefixed(it.Value(), &cf)
+			aliases = append(aliases, []interface{}{string(it.Key()[1:]), hexOfBech(cf.Address)})
+		}
+		it.Close()
+		v["alias_index"] = aliases
+		return v
 	case "cvm":
 		return exportJ(c, ctx, "cvm")
 	case "staking":
